@@ -101,7 +101,7 @@ Example C14_schema_len_examples :
   SchemaScanner.schema_len [] = SchemaScanner.VErr 202 0 /\
   SchemaScanner.schema_len (of_string "  "%string) = SchemaScanner.VErr 202 0 /\
   SchemaScanner.schema_len (of_string "#abc"%string) = SchemaScanner.VErr 202 0 /\
-  SchemaScanner.schema_len (of_string "/"%string) = SchemaScanner.VErr 202 0 /\
+  SchemaScanner.schema_len (of_string "/"%string) = SchemaScanner.VErr 303 0 /\
   SchemaScanner.schema_len [x0a; x0a] = SchemaScanner.VErr 202 0 /\
   SchemaScanner.schema_len ([x0a] ++ of_string "1"%string) = SchemaScanner.VLen 2 /\
   SchemaScanner.schema_len (of_string "12 x"%string) = SchemaScanner.VLen 2 /\
@@ -172,7 +172,7 @@ Example C14_schema_len_stable_false :
   SchemaScanner.schema_len (firstn 11 SchemaLenProofs.cex_comment) = SchemaScanner.VLen 1.
 Proof. exact SchemaLenProofs.schema_len_stable_false. Qed.
 Example C14_schema_len_error_after_endtop :
-  snd (SchemaScanner.scan true SchemaLenProofs.cex_error_after_endtop) = SchemaScanner.Err 301 5 /\
+  snd (SchemaScanner.scan true SchemaLenProofs.cex_error_after_endtop) = SchemaScanner.Err 301 6 /\
   SchemaScanner.schema_len SchemaLenProofs.cex_error_after_endtop = SchemaScanner.VLen 1 /\
   SchemaScanner.schema_len [] = SchemaScanner.VErr 202 0 /\
   snd (SchemaScanner.scan true []) = SchemaScanner.Done.
@@ -193,3 +193,16 @@ Example C14_schema_len_repaired_c :
   snd (SchemaScanner.scan true (firstn 1 SchemaLenProofs.cex_trailing_then_annotation)) = SchemaScanner.Done /\
   SchemaScanner.schema_len (firstn 1 SchemaLenProofs.cex_trailing_then_annotation) = SchemaScanner.VLen 1.
 Proof. exact SchemaLenProofs.repaired_c. Qed.
+
+(* Len after an inline annotation object (fix 0ff4f91): in length mode a foreign byte after the object
+   of an inline annotation of the top-level value ends the schema, like after the value itself;
+   "1 // {min: 1}x" and "1 // {min: 1} foo" have Len 13 (they were errors), the returned prefix is
+   "1 // {min: 1}", for which C14_schema_len_prefix holds (it holds for every text) *)
+Example C14_schema_len_after_annotation_object :
+  SchemaScanner.schema_len SchemaLenProofs.len_after_annotation_1 = SchemaScanner.VLen 13 /\
+  SchemaScanner.schema_len SchemaLenProofs.len_after_annotation_2 = SchemaScanner.VLen 13 /\
+  snd (SchemaScanner.scan true SchemaLenProofs.len_after_annotation_1) = SchemaScanner.Done /\
+  snd (SchemaScanner.scan false SchemaLenProofs.len_after_annotation_1) = SchemaScanner.Err 301 13 /\
+  snd (SchemaScanner.scan false (firstn 13 SchemaLenProofs.len_after_annotation_1)) = SchemaScanner.Done /\
+  SchemaScanner.schema_len (firstn 13 SchemaLenProofs.len_after_annotation_1) = SchemaScanner.VLen 13.
+Proof. exact SchemaLenProofs.schema_len_after_annotation_object. Qed.
